@@ -5,6 +5,7 @@ import (
 	stdtls "crypto/tls"
 	"fmt"
 	"io"
+	"net"
 
 	"github.com/tjfoc/gmsm/gmtls"
 
@@ -49,6 +50,8 @@ type App struct {
 	NoClose bool
 	// CloseWriteAfterWrites: call CloseWrite (send close_notify, keep reading) after the writes
 	CloseWriteAfterWrites bool
+	// Wrap, when set, is put between the library endpoint and the wire (transport fault injection)
+	Wrap func(net.Conn) net.Conn
 }
 
 type conn interface {
@@ -110,10 +113,14 @@ func GMEnd(cfg *gmtls.Config, client bool, a App, v *View, keep **gmtls.Conn) fu
 			}
 		}()
 		var c *gmtls.Conn
+		var nc net.Conn = e
+		if a.Wrap != nil {
+			nc = a.Wrap(e)
+		}
 		if client {
-			c = gmtls.Client(e, cfg)
+			c = gmtls.Client(nc, cfg)
 		} else {
-			c = gmtls.Server(e, cfg)
+			c = gmtls.Server(nc, cfg)
 		}
 		if keep != nil {
 			*keep = c
